@@ -11,7 +11,8 @@
                  (collection, dataset type, data ID)
    valid_at s c ty d x : the datasets valid at instant x, in table order. *)
 From Coq Require Import ZArith NArith List Bool Lia.
-From V Require Import Base.Tri Gen.TimespanGen Model.Timespan Proofs.TimespanProofs Model.Calib Proofs.CalibProofs.
+From V Require Import Base.Tri Gen.TimespanGen Model.Timespan Proofs.TimespanProofs Model.Calib Proofs.CalibProofs
+  Model.CalibPath Proofs.CalibProofsX1 Proofs.CalibProofsX2.
 Import ListNotations.
 Open Scope N_scope.
 
@@ -150,11 +151,138 @@ Theorem lookup_instant : forall s c ty d x, Inv s ->
 Proof. exact lookup_instant_p. Qed.
 Print Assumptions lookup_instant.
 
-(* the ordered-path lookup (one pass with best rank + tie flag, as coded) over a single collection is the plain lookup;
-   longer paths are compared with the implementation on every run (no theorem) *)
+(* the ordered-path lookup (one pass with best rank + tie flag, as coded) over a single collection is the plain lookup *)
 Theorem lookup_path_single : forall s c ty d q, lookup_path s [c] ty d q = lookup_span s c ty d q.
 Proof. exact lookup_path_single_p. Qed.
 Print Assumptions lookup_path_single.
+
+(* ---- ordered search paths of ANY length (Model/CalibPath.v, Proofs/CalibProofsX1.v) ----
+   lookup_path  : SqlRegistry.findDataset as coded -- one SELECT over all searched collections, then ONE pass over the
+                  rows (in whatever order the database returns them) keeping the best-ranked row and a tie flag
+   lookup_first : the specification -- walk the path; the first collection whose own lookup is not NotFound decides
+                  (its dataset, or its ambiguity); later collections are not consulted *)
+Theorem lookup_path_first_wins : forall s path ty d q, lookup_path s path ty d q = lookup_first s path ty d q.
+Proof. exact lookup_path_first_wins_p. Qed.
+Print Assumptions lookup_path_first_wins.
+
+(* the same for any row list (calibration rows, RUN / TAGGED rows ...) *)
+Theorem lookup_rows_first_wins : forall rows path ty d q, lookup_rows rows path ty d q = first_rows rows path ty d q.
+Proof. exact lookup_rows_first_wins_p. Qed.
+Print Assumptions lookup_rows_first_wins.
+
+Theorem lookup_path_decided_by_first : forall s pre c post ty d q,
+  (forall c', In c' pre -> lookup_span s c' ty d q = NotFound) -> lookup_span s c ty d q <> NotFound ->
+  lookup_path s (pre ++ c :: post) ty d q = lookup_span s c ty d q.
+Proof. exact lookup_path_decided_p. Qed.
+Print Assumptions lookup_path_decided_by_first.
+
+Theorem lookup_path_notfound_iff : forall s path ty d q,
+  lookup_path s path ty d q = NotFound <-> (forall c, In c path -> lookup_span s c ty d q = NotFound).
+Proof. exact lookup_path_notfound_iff_p. Qed.
+Print Assumptions lookup_path_notfound_iff.
+
+(* never an arbitrary one: a returned dataset is THE one overlapping row of the first collection that has any *)
+Theorem lookup_path_unique_sound : forall s path ty d q ds, lookup_path s path ty d q = Unique ds ->
+  exists pre c post r, path = pre ++ c :: post /\ (forall c', In c' pre -> overlapping s c' ty d q = []) /\
+                       overlapping s c ty d q = [r] /\ r_ds r = ds.
+Proof. exact lookup_path_unique_sound_p. Qed.
+Print Assumptions lookup_path_unique_sound.
+
+(* ambiguity inside the first collection that has a row is reported, whatever comes later in the path *)
+Theorem lookup_path_ambiguous_iff : forall s path ty d q, lookup_path s path ty d q = Ambiguous <->
+  exists pre c post, path = pre ++ c :: post /\ (forall c', In c' pre -> overlapping s c' ty d q = []) /\
+                     (length (overlapping s c ty d q) >= 2)%nat.
+Proof. exact lookup_path_ambiguous_iff_p. Qed.
+Print Assumptions lookup_path_ambiguous_iff.
+
+(* the answer does not depend on the order in which the database returns the rows *)
+Theorem lookup_rows_order_irrelevant : forall rows rows' path ty d q, Permutation.Permutation rows rows' ->
+  lookup_rows rows path ty d q = lookup_rows rows' path ty d q.
+Proof. exact lookup_rows_perm_p. Qed.
+Print Assumptions lookup_rows_order_irrelevant.
+
+(* at an instant, on a reachable state: never ambiguous; the dataset valid in the first collection where one is valid *)
+Theorem lookup_path_instant : forall s path ty d x, Inv s ->
+  lookup_path s path ty d (x, x + 1)%Z <> Ambiguous /\
+  (forall ds, lookup_path s path ty d (x, x + 1)%Z = Unique ds <->
+     exists pre c post, path = pre ++ c :: post /\ (forall c', In c' pre -> valid_at s c' ty d x = []) /\ valid_at s c ty d x = [ds]).
+Proof. exact lookup_path_instant_p. Qed.
+Print Assumptions lookup_path_instant.
+
+(* the loop of seed C04b (leave the scan as soon as a rank-0 row displaces a worse one) is NOT first-wins: the second
+   row of the preferred collection is never seen and one of the two datasets is returned instead of the ambiguity *)
+Definition early_rows : list crow :=
+  [ mkRow 1 0 0 2 (GEN_MIN, GEN_MAX); mkRow 0 0 0 0 (1000, 2000)%Z; mkRow 0 0 0 1 (2000, 3000)%Z ].
+Theorem early_exit_refuted :
+  scan_break r_ds (path_rows_of early_rows [0; 1] 0 0 0 (1999, 2001)%Z) = Unique 0 /\
+  lookup_rows early_rows [0; 1] 0 0 (1999, 2001)%Z = Ambiguous /\
+  first_rows early_rows [0; 1] 0 0 (1999, 2001)%Z = Ambiguous.
+Proof. vm_compute. repeat split; reflexivity. Qed.
+Print Assumptions early_exit_refuted.
+
+(* ---- CHAINED and RUN collections in the search path (xlookup: flatten depth-first, drop repeated collections,
+        tags rows UNION calibs rows, the same scan) ---- *)
+Theorem xlookup_first_wins : forall fuel e s path p ty d q, flatten fuel (e_chains e) path = Some p ->
+  xlookup fuel e s path ty d q = Some (first_rows (all_rows e s) p ty d q).
+Proof. exact xlookup_first_wins_p. Qed.
+Print Assumptions xlookup_first_wins.
+
+(* a chain whose flattened members are calibration collections is the plain ordered lookup over them *)
+Theorem xlookup_calibration_chain : forall fuel e s path p ty d q,
+  flatten fuel (e_chains e) path = Some p -> Forall (not_a_run e) p ->
+  xlookup fuel e s path ty d q = Some (lookup_first s p ty d q).
+Proof. exact xlookup_calibration_chain_p. Qed.
+Print Assumptions xlookup_calibration_chain.
+
+(* a chain inside a path is searched exactly as if its flattened children stood in its place *)
+Theorem xlookup_chain_inline : forall f e s pre c kids post p1 k p2 ty d q,
+  lookup c (e_chains e) = Some kids -> flatten f (e_chains e) kids = Some k ->
+  flatten (S f) (e_chains e) pre = Some p1 -> flatten (S f) (e_chains e) post = Some p2 ->
+  xlookup (S f) e s (pre ++ c :: post) ty d q = Some (first_rows (all_rows e s) (p1 ++ k ++ p2) ty d q).
+Proof. exact xlookup_chain_inline_p. Qed.
+Print Assumptions xlookup_chain_inline.
+
+Theorem flatten_no_chain : forall f ch path, (forall c, In c path -> lookup c ch = None) -> flatten (S f) ch path = Some path.
+Proof. exact flatten_plain. Qed.
+Print Assumptions flatten_no_chain.
+
+(* what one collection contributes: the RUN members (live, right type + data ID, any probe with an instant) and the
+   overlapping calibration rows *)
+Theorem collection_rows : forall e s c ty d q,
+  coll_rows (all_rows e s) c ty d q = coll_rows (run_rows e s) c ty d q ++ overlapping s c ty d q.
+Proof. exact coll_rows_all. Qed.
+Print Assumptions collection_rows.
+
+Theorem run_member_seen : forall e s c ty d q r, In r (coll_rows (run_rows e s) c ty d q) <->
+  exists f, In (c, f) (e_runs e) /\ memN (f_ds f) (dsets s) = true /\ f_ty f = ty /\ f_did f = d /\
+            py_overlaps (GEN_MIN, GEN_MAX) q = true /\ r = mkRow c ty d (f_ds f) (GEN_MIN, GEN_MAX).
+Proof. exact run_member_rows. Qed.
+Print Assumptions run_member_seen.
+
+Theorem run_member_overlaps_iff : forall q, wf q -> (py_overlaps (GEN_MIN, GEN_MAX) q = true <-> exists x, mem x q).
+Proof. exact run_row_overlaps. Qed.
+Print Assumptions run_member_overlaps_iff.
+
+(* SQL UNION (SELECT DISTINCT) of the two subqueries removes nothing on a reachable state *)
+Theorem overlapping_rows_distinct : forall s c ty d q, Inv s -> wf q -> NoDup (overlapping s c ty d q).
+Proof. exact overlapping_nodup_p. Qed.
+Print Assumptions overlapping_rows_distinct.
+
+(* ---- queryDatasetAssociations reports the rows of the same interval map ---- *)
+Theorem valid_at_from_associations : forall s c ty d x,
+  valid_at s c ty d x = map r_ds (filter (fun r => (r_did r =? d) && memb x (r_ts r)) (associations s [c] ty)).
+Proof. exact valid_at_assoc_p. Qed.
+Print Assumptions valid_at_from_associations.
+
+Theorem overlapping_from_associations : forall s c ty d q,
+  overlapping s c ty d q = filter (fun r => (r_did r =? d) && py_overlaps (r_ts r) q) (associations s [c] ty).
+Proof. exact overlapping_assoc_p. Qed.
+Print Assumptions overlapping_from_associations.
+
+Theorem associations_are_the_rows : forall s cs ty r,
+  In r (associations s cs ty) <-> In r (calibs s) /\ In (r_coll r) cs /\ r_ty r = ty.
+Proof. exact assoc_in. Qed.
+Print Assumptions associations_are_the_rows.
 
 (* ---- non-vacuity: a reachable state with a refused certify, a split range and an ambiguous span lookup ---- *)
 Definition ex_state : state := mkState [(0, KCalibration); (2, KRun)] [(0, true); (2, false)] [0; 1; 2] [].
@@ -180,4 +308,18 @@ Example ex_outcomes :
   lookup_span (run true ex_state ex_history) 0 0 0 (1400, 2100)%Z = Ambiguous /\
   lookup_span (run true ex_state ex_history) 0 0 0 (1500, 2000)%Z = NotFound /\
   lookup_span (run true ex_state ex_history) 0 0 0 (1999, 2001)%Z = Unique 0.
+Proof. vm_compute. repeat split; reflexivity. Qed.
+
+(* paths: preferred collection 0 (two adjacent ranges), fallback collection 1 (unbounded), chain 5 = [0; 1], RUN 2 *)
+Definition px_state : state := mkState [(0, KCalibration); (1, KCalibration); (2, KRun)] [(0, true)] [0; 1; 2; 3] [].
+Definition px_history : list op :=
+  [ Certify 1 [mkRef 2 0 0] (GEN_MIN, GEN_MAX); Certify 0 [mkRef 0 0 0] (1000, 2000)%Z; Certify 0 [mkRef 1 0 0] (2000, 3000)%Z ].
+Definition px_env : penv := mkEnv [(5, [0; 1]); (6, [5; 2])] [(2, mkRef 3 0 0)].
+Example px_outcomes :
+  let s := run true px_state px_history in
+  lookup_path s [0; 1] 0 0 (1500, 1600)%Z = Unique 0 /\ lookup_path s [0; 1] 0 0 (1999, 2001)%Z = Ambiguous /\
+  lookup_path s [0; 1] 0 0 (5000, 6000)%Z = Unique 2 /\ lookup_path s [1; 0] 0 0 (1999, 2001)%Z = Unique 2 /\
+  xlookup 4 px_env s [5] 0 0 (1999, 2001)%Z = Some Ambiguous /\ xlookup 4 px_env s [2; 5] 0 0 (1999, 2001)%Z = Some (Unique 3) /\
+  xlookup 4 px_env s [6] 0 0 (5000, 6000)%Z = Some (Unique 2) /\ xlookup 4 px_env s [6] 0 0 (GEN_MAX, GEN_MIN) = Some NotFound /\
+  flatten 4 (e_chains px_env) [6; 0] = Some [0; 1; 2; 0].
 Proof. vm_compute. repeat split; reflexivity. Qed.
